@@ -593,7 +593,10 @@ def run_scaling(spec, rec: Recorder):
 
     for name, (dec, build) in scalable_inputs().items():
         fn = decs[dec]
-        n_small, n_big = 700, 2800
+        # as large as one fragment allows (the quadratic term of a copy-everything-so-far-per-element bug only dominates there)
+        per = max(1, (len(build(12)) - len(build(4))) // 8)
+        n_big = max(400, min(60000 // per, 15000))
+        n_small = n_big // 4
         small, big = build(n_small), build(n_big)
         if len(big) > 65535:
             n_small, n_big = 500, 2000
@@ -621,11 +624,11 @@ def run_scaling(spec, rec: Recorder):
             ts, tb = measure(fn, small, spec["repeats"]), measure(fn, big, spec["repeats"])
             r = tb / max(1, ts)
             tries.append(round(r, 2))
-            if r <= 2.2 * ratio_len:
+            if r <= 1.8 * ratio_len:
                 break
         rec.range(f"cpu_ratio_x100[{name}]", int(100 * min(tries)))
         rec.count("scaling_probes")
-        if len(tries) == 4 and min(tries) > 2.2 * ratio_len:
+        if len(tries) == 4 and min(tries) > 1.8 * ratio_len:
             rec.violation("superlinear-work", f"{name}: input grew {ratio_len:.1f}x but CPU time grew {tries}x in four independent measurements", {"kind": "scaling", "probe": name})
         rec.case(("scaling", name, n_big), nontrivial=True, sample={"probe": name, "len_small": len(small), "len_big": len(big), "steps": steps, "cpu_ratio": tries})
 
